@@ -95,5 +95,19 @@ CHECKS["C02"] = {
             "lock-step of ask results. Search: freshness/equal parts/single-move/brute-force optimality on every reached state.",
     "design_ref": "DESIGN.md section 6 C02", "note": _L1D_NOTE, "technique": T,
 }
+CHECKS["C15"] = {
+    "level": "proof",
+    "text": "Kernel-checked, generic over all lawful children, all child counts, strategies, strategy switches and op lists: the "
+            "caches (real/expected losses, suggestions) are current in every reachable state, hence loss(real) is the largest child "
+            "loss for both flags; tells reach exactly the labelled child; every handed-out point is the labelled child's own current "
+            "proposal and becomes pending there only; the four strategy rules (argmin of known+pending, rotation, largest offered "
+            "improvement, largest expected loss); a non-committing ask is a no-op. Tie: lock-step with BalancingLearner over "
+            "SequenceLearner children; search: clause oracles over Sequence/Average/Learner1D children with cloned reference children.",
+    "design_ref": "DESIGN.md section 6 C15",
+    "note": "Trusted: Lean kernel, standard axioms, hand model Balancing.lean tied by differential testing; children abstracted by "
+            "the laws Lawful/RealLossStable (exact non-committing ask and restore; discards do not change real loss); python max()/np.argmin "
+            "first-wins semantics. Four defects found here were repaired by fix: commits (see known_findings.json).",
+    "technique": T,
+}
 _PENDING = "machinery for this property is not built yet in this commit (work in progress; see DESIGN.md section 9)"
 NOT_APPLICABLE = {f"C{i:02d}": _PENDING for i in range(1, 21) if f"C{i:02d}" not in CHECKS}
